@@ -606,6 +606,140 @@ def _accum_value(fi, n, ex):
     return ast.copy_location(comp, site.value)
 
 
+_SAME_IDS_METHODS = ('tocsr', 'tocsc', 'tocoo', 'tolil', 'todok', 'tobsr', 'todia', 'toarray', 'todense', 'copy')
+_SAME_IDS_CTORS = ('csr_matrix', 'csc_matrix', 'coo_matrix', 'lil_matrix', 'dok_matrix', 'bsr_matrix', 'dia_matrix',
+                   'csr_array', 'csc_array', 'coo_array', 'lil_array', 'dok_array', 'bsr_array', 'dia_array')
+_SAME_IDS_WRAPS = ('np.asarray', 'np.array', 'np.asanyarray', 'np.ascontiguousarray', 'np.copy', 'numpy.asarray', 'numpy.array')
+
+
+def _same_entries_step(e):
+    """`e` = f(inner) where f keeps every entry (i, j) of a matrix at position
+    (i, j) with its value (storage format / container conversions, copies):
+    inner; None otherwise."""
+    if isinstance(e, ast.Call) and not any(isinstance(a, ast.Starred) for a in e.args) and all(k.arg is not None for k in e.keywords):
+        cn = call_name(e) or ''
+        if cn in _SAME_IDS_WRAPS or cn.split('.')[-1] in _SAME_IDS_CTORS:
+            if len(e.args) == 1 and not isinstance(e.args[0], (ast.Tuple, ast.List, ast.GeneratorExp)) and \
+                    all(k.arg in ('copy', 'order') for k in e.keywords):
+                return e.args[0]
+            return None
+        if isinstance(e.func, ast.Attribute) and e.func.attr in _SAME_IDS_METHODS and not e.args and \
+                all(k.arg in ('copy', 'order') for k in e.keywords):
+            return e.func.value
+        return None
+    if isinstance(e, ast.Attribute) and e.attr == 'A' and isinstance(e.ctx, ast.Load):
+        return e.value
+    return None
+
+
+def _index_parts(sl):
+    """Per-axis index expressions of a subscript (tuple index, np.ix_)."""
+    if isinstance(sl, ast.Tuple):
+        return list(sl.elts)
+    if _is_ix(sl) and not sl.keywords:
+        return list(sl.args)
+    return [sl]
+
+
+def _keeps_all_positions(p):
+    return _is_full_slice(p) or (isinstance(p, ast.Constant) and p.value is Ellipsis)
+
+
+def _matrix_roots(fi, stmt, e, chain=(), sels=()):
+    """Where the MATRIX denoted by expression `e` (evaluated at `stmt`) comes
+    from, seen through plain copies and entry-preserving conversions
+    (_same_entries_step): list of (key, selections).  key = (id(site), index)
+    as in _okey - the statement that produces the root value (index: the
+    component of an unpacked result), or ('PARAM'/'UNBOUND', None).
+    selections = the subscripts (stmt, Subscript) passed on the way whose
+    index is not the full range: the value is then a SUB-SELECTION of the
+    root (row i of it is not row i of the root in general)."""
+    while True:
+        comp = _component(fi, stmt, e, chain) if isinstance(e, ast.Subscript) else None
+        if comp is not None:
+            return [((id(site) if not isinstance(site, str) else site, idx), sels) for site, idx, _, _ in comp]
+        inner = _same_entries_step(e)
+        if inner is not None:
+            e = inner
+            continue
+        if isinstance(e, ast.Subscript):
+            if not all(_keeps_all_positions(p) for p in _index_parts(e.slice)):
+                sels = sels + ((stmt, e),)
+            e = e.value
+            continue
+        break
+    if not isinstance(e, ast.Name):
+        return [((id(stmt), None), sels)]
+    out = []
+    for d in fi.rd.defs_at(stmt, e.id):
+        if d in ('PARAM', 'UNBOUND'):
+            out.append(((d, None), sels))
+            continue
+        if any(d is c for c in chain):
+            continue
+        v = fi.def_value(d, e.id)
+        if v is not None:
+            out += _matrix_roots(fi, d, v, chain + (d,), sels)
+            continue
+        idx = None
+        if isinstance(d, ast.Assign) and len(d.targets) == 1 and isinstance(d.targets[0], (ast.Tuple, ast.List)):
+            for i, te in enumerate(d.targets[0].elts):
+                if isinstance(te, ast.Name) and te.id == e.id:
+                    idx = i
+        out.append(((id(d), idx), sels))
+    return out
+
+
+def _selection_kind(fi, part):
+    """What a per-axis index expression selects: 'all' (every position, in
+    order), 'subset' (a data-dependent set of positions: the positions of the
+    true entries of a mask - position k of the selection is then NOT state k
+    in general), 'unknown'."""
+    if _keeps_all_positions(part):
+        return 'all'
+    if isinstance(part, ast.Slice):
+        return 'unknown'
+    def value_of(x):
+        # the object a name is bound to (single reaching definition, never mutated in place): its
+        # OUTERMOST constructor decides the kind - whatever the mask is computed from (also
+        # through method calls the expansion does not forward), np.where(<mask>)[0] are positions
+        for _ in range(6):
+            x = _peel_outer(x)
+            if isinstance(x, ast.Call) and call_name(x) in ('np.sort', 'np.unique') and len(x.args) == 1 and not x.keywords:
+                x = x.args[0]
+                continue
+            if not (isinstance(x, ast.Name) and isinstance(x.ctx, ast.Load)):
+                break
+            try:
+                defs = fi.defs_of_use(x)
+            except Exception:
+                break
+            if len(defs) != 1:
+                break
+            d = next(iter(defs))
+            v = fi.def_value(d, x.id) if d not in ('PARAM', 'UNBOUND') else None
+            if v is None or fi._mutated_in_place(x.id):
+                break
+            x = v
+        return x
+    x = value_of(part)
+    if isinstance(x, ast.Subscript) and const_value(x.slice) == 0 and isinstance(x.value, ast.Call) and \
+            call_name(x.value) in ('np.where', 'np.nonzero') and len(x.value.args) == 1 and \
+            all(k.arg == 'mask' for k in x.value.keywords):
+        return 'subset'
+    if isinstance(x, ast.Call) and call_name(x) in ('np.flatnonzero', 'np.argwhere') and len(x.args) == 1:
+        return 'subset'
+    def is_mask(m):
+        if isinstance(m, ast.Compare):
+            return len(m.ops) == 1 and not isinstance(m.ops[0], (ast.Is, ast.IsNot, ast.In, ast.NotIn))
+        if isinstance(m, ast.UnaryOp) and isinstance(m.op, ast.Invert):
+            return is_mask(m.operand)
+        if isinstance(m, ast.BinOp) and isinstance(m.op, (ast.BitAnd, ast.BitOr)):
+            return is_mask(m.left) and is_mask(m.right)
+        return False
+    return 'subset' if is_mask(x) else 'unknown'
+
+
 def _atoms_at(fi, stmts):
     """Union of the guard atoms of several statements (None if undecidable)."""
     out = set()
@@ -1343,11 +1477,19 @@ def fit_rules(ck):
             unknown_extra.append(pn)
         elif not (type(pv.value) is type(d.value) and pv.value == d.value):
             extra.append('%s=%s' % (pn, u(pv)))
-    if not isinstance(arg, ast.Name):
-        ck.missing(rule, 'matrix handed to trim_disconnected is not a variable: %s' % _short(t))
+    if arg is None or isinstance(arg, ast.Starred):
+        ck.missing(rule, 'matrix handed to trim_disconnected: %s' % _short(t))
         return
-    X = arg.id
-    xkey = _okey(_origins(fi, t, X))            # the untrimmed counts
+    X = u(arg)
+    # the untrimmed counts: where the matrix handed to the trimming comes from, seen through copies and
+    # storage-format conversions; xsel = sub-selections (fancy / mask / slice indexing) taken on the way
+    xroots = _matrix_roots(fi, t, arg)
+    xkey = {k for k, _ in xroots}
+    xsel = []
+    for _, ss in xroots:
+        for w in ss:
+            if not any(w[1] is z[1] for z in xsel):
+                xsel.append(w)
     bad_store = ('MSM.fit must store the mapping returned by trim_disconnected (default threshold, renumbering) '
                  'and continue with the trimmed counts')
 
@@ -1377,6 +1519,7 @@ def fit_rules(ck):
     tcs = _attr_stores(fit, 'self.tcounts_')
     ykey = None
     ynode = None
+    yroots = []
     if len(tcs) == 1:
         s, ve, idx = tcs[0]
         if ve is None and isinstance(s.value, ast.Name):
@@ -1394,6 +1537,7 @@ def fit_rules(ck):
                 and prod[0][1] is not call:
             ynode = prod[0][1].args[0]
             ykey = _okey(_origins(fi, prod[0][0], ynode.id))
+            yroots = _matrix_roots(fi, prod[0][0], ynode)
     flow_ok = None
     if any(p[0] == 'bad' for p in problems):
         flow_ok = False
@@ -1416,7 +1560,8 @@ def fit_rules(ck):
     elif (id(t), 1) not in ykey:
         flow_ok = False
         why = 'the trimmed counts returned by trim_disconnected are not what the model is estimated from (%s)' % u(ynode)
-    elif ykey - {(id(t), 1)} != xkey:
+    elif {k for k, _ in yroots} - {(id(t), 1)} != xkey or any(ss for k, ss in yroots if k != (id(t), 1)):
+        # (without trimming the model must be estimated from the very counts that would have been trimmed)
         ck.missing(rule, 'origin of the estimator input %s besides the trimmed counts' % u(ynode))
     else:
         flow_ok = True
@@ -1424,6 +1569,26 @@ def fit_rules(ck):
         ck.check(flow_ok, rule, mm, t, Q, u(t),
                  'the fitted model reports the trimming mapping and uses the trimmed counts',
                  bad_store + ('' if flow_ok else ': ' + why))
+    # ---- the ids the reported mapping speaks about: trim_disconnected numbers the states by their POSITION in
+    # the matrix it receives; its mapping is stored as it is, so that matrix must still be indexed by the
+    # original state ids - a sub-selection of the counts taken beforehand renumbers the states
+    if trim_src and not problems:
+        ids_rule = rule + '.ids'
+        kinds = [(w, [_selection_kind(fi, p) for p in _index_parts(w[1].slice)]) for w in xsel]
+        subset = [w for w, ks in kinds if 'subset' in ks]
+        if not xsel:
+            ck.ok(ids_rule, mm, t, 'matrix handed to trim_disconnected: %s' % _short(arg, 100),
+                  'the trimmed matrix is indexed by the original state ids (only copies / storage-format '
+                  'conversions between the transition counts and the trimming)')
+        elif subset:
+            w = subset[0]
+            ck.bad(ids_rule, mm, w[0], Q, 'sub-selection handed to trim_disconnected: %s' % _short(w[1], 120),
+                   'the matrix handed to trim_disconnected is a data-dependent sub-selection of the transition counts '
+                   '(%s): trim_disconnected numbers states by their position in that matrix, and its mapping is stored '
+                   'in self.mapping_ without being composed with the selected positions, so mapping_.to_original no '
+                   'longer holds original state ids' % _short(w[1], 80))
+        else:
+            ck.missing(ids_rule, 'whether the indexing %s applied to the counts before trim_disconnected keeps the state ids' % _short(xsel[0][1], 80))
     # ---- trimming happens exactly when self.trim (the call, and the arrival of its mapping in self.mapping_)
     sites = [t] + [x for s, o in trim_src for x in (s,) + tuple(o[3])]
     atoms = _atoms_at(fi, sites)
@@ -1450,13 +1615,17 @@ def fit_rules(ck):
     made, tmcall = o[0], o[2]
     e = _strip_calls(fi.expand(tmcall.args[0]), ('list', 'tuple'))
     # names that denote the untrimmed counts where the identity mapping is built
-    same = {n.id for n in ast.walk(e) if isinstance(n, ast.Name) and _okey(_origins(fi, made, n.id)) == xkey}
+    def is_counts(n):
+        r = _matrix_roots(fi, made, n)
+        return bool(r) and {k for k, _ in r} == xkey and not any(ss for _, ss in r)
+    same = {n.id for n in ast.walk(e) if isinstance(n, ast.Name) and isinstance(n.ctx, ast.Load) and is_counts(n)}
     forms = []
     for r in ('range(_N)', 'np.arange(_N)'):
         forms += ['zip(%s, %s)' % (r, r), '((_I, _I) for _I in %s)' % r, '[(_I, _I) for _I in %s]' % r]
-    v = _cls(e, forms, scope=same or {X})
+    xnames = {n.id for n in ast.walk(arg) if isinstance(n, ast.Name)}
+    v = _cls(e, forms, scope=same or xnames)
     if v[0] == 'match':
-        v2 = _cls(v[1]['_N'], ['_Z.shape[0]', '_Z.shape[1]'], scope=same or {X})
+        v2 = _cls(v[1]['_N'], ['_Z.shape[0]', '_Z.shape[1]'], scope=same or xnames)
         if v2[0] != 'match':
             v = v2
         elif not (isinstance(v2[1]['_Z'], ast.Name) and v2[1]['_Z'].id in same):
